@@ -39,7 +39,8 @@ ASSUMPTIONS = ['forced rewrites (--force-rewrite) are excluded from the idempote
                'through symlinks']
 
 PRIOR = ['content', 'size', 'delete', 'stray', 'm-digest', 'm-drop', 'm-ghost',
-         'm-compatible-dup', 'm-chain', 'unreg-valid', 'unreg-stale', 'unreg-invalid']
+         'm-compatible-dup', 'm-chain', 'unreg-valid', 'unreg-stale', 'unreg-invalid',
+         'm-dist-twin']
 N = {'quick': 400, 'thorough': 15000}
 PER_UNIT = 8
 
